@@ -203,7 +203,7 @@ def impl_part(ctx):
         sizes = sorted({e["size"] for t, _ in lst for e in t["evs"] if e["ev"] == "Put"})
         text = cfg_text(spec="TraceSpec", producers='{"p1", "p2", "p3"}', nitems=4, sizes="{" + ", ".join(map(str, sizes)) + "}",
                         maxops=mo, maxbytes=mb, properties=("NoCallAfterFailure",), live="")
-        text = text.replace("CHECK_DEADLOCK FALSE", "CONSTRAINT Progress\nPOSTCONDITION Accepted\nCHECK_DEADLOCK FALSE")
+        text = text.replace("CHECK_DEADLOCK FALSE", "CONSTRAINT Progress\nCONSTRAINT Prune\nPOSTCONDITION Accepted\nCHECK_DEADLOCK FALSE")
 
         def classify(trace, scen, reached):
             return None
